@@ -1,0 +1,39 @@
+//go:build verif
+
+package search
+
+import (
+	"runtime"
+
+	"github.com/sourcegraph/zoekt"
+	"github.com/sourcegraph/zoekt/query"
+)
+
+// Verification hooks (C18). Not part of the normal build.
+
+// VerifSelectRepoSet runs selectRepoSet on shards described by their cached repository lists. A nil entry of
+// shardRepos stands for a shard whose List failed at load time (rankedShard.repos == nil). It returns the
+// positions of the selected shards, in order, and the rewritten query.
+func VerifSelectRepoSet(shardRepos [][]*zoekt.Repository, q query.Q) ([]int, query.Q) {
+	shards := make([]*rankedShard, len(shardRepos))
+	pos := make(map[*rankedShard]int, len(shardRepos))
+	for i, repos := range shardRepos {
+		shards[i] = &rankedShard{repos: repos}
+		pos[shards[i]] = i
+	}
+	sel, q2 := selectRepoSet(shards, q)
+	out := make([]int, 0, len(sel))
+	for _, s := range sel {
+		out = append(out, pos[s])
+	}
+	return out, q2
+}
+
+// VerifShardedSearcher returns the searcher stack of NewDirectorySearcher (typeRepoSearcher over the sharded
+// searcher) over already loaded shards, without a directory watcher.
+func VerifShardedSearcher(shards map[string]zoekt.Searcher) zoekt.Streamer {
+	ss := newShardedSearcher(int64(runtime.GOMAXPROCS(0)))
+	ss.replace(shards)
+	ss.markReady()
+	return &typeRepoSearcher{Streamer: ss}
+}
